@@ -115,10 +115,7 @@ theorem best_match_unique (e : BEnv) (Γ : Ctx) (fac : Factory) (cfg : ParserCon
     ∃ kvs, encModelF Γ fac {} n (.obj k' fs') = .ok (.obj kvs) ∧
       bindBestWith (bindDataclassF e Γ n) Γ cfg ordered pool (.obj kvs) = ND.pure (.obj k' fs') := by
   obtain ⟨kvs, henc, hkeys, _, hdec⟩ := rt_all e Γ fac n k' _ hok
-  refine ⟨kvs, henc, ?_⟩
-  unfold bindBestWith
-  simp only [hkeys, hpool, List.map_cons, List.map_nil, hdec]
-  cases ordered <;> simp [ND.run, ND.pure, maxScore, ND.choose] <;> rfl
+  exact ⟨kvs, henc, bindBest_unique _ Γ cfg ordered pool kvs k' _ (by rw [hkeys]; exact hpool) hdec⟩
 
 example : valOKj benv0 subCtx .dict 2 "Ch2".toList
       (.obj "Ch2".toList [("v".toList, .prim (.int 1)), ("w".toList, .prim (.int 5))]) = true
@@ -154,24 +151,27 @@ theorem dict_rt_full_false_subclass : ¬ dict_rt_full := by
   revert this
   decide
 
-/-- C04-filter-none-anyelement: `W(any=AnyElement(qname="w1"))` round-trips with `dict` and fails to
-decode with `FILTER_NONE` -/
-theorem dict_rt_full_false_filter_none_any :
+/-- formerly C04-filter-none-anyelement (repaired: `DictDecoder.is_generic`): `W(any=AnyElement(qname="w1"))`
+round-trips with both factories; with `FILTER_NONE` the `None` members `text` / `tail` are missing and
+the mapping is still recognised as an `AnyElement` -/
+theorem filter_none_any_roundtrip :
     DictRoundTrip benv0 anywCtx .dict 3 "W".toList anyw_value ∧
     encode anywCtx .filterNone {} 3 anyw_value = .ok (.obj [("any".toList,
       .obj [("qname".toList, .str "w1".toList), ("children".toList, .arr []), ("attributes".toList, .obj [])])]) ∧
-    decode benv0 anywCtx {} 3 (.cls "W".toList) (.obj [("any".toList,
-      .obj [("qname".toList, .str "w1".toList), ("children".toList, .arr []), ("attributes".toList, .obj [])])])
-      = ND.fail (.parser "Failed to bind object to any of the classes") :=
-  ⟨⟨_, by rfl, by rfl⟩, by rfl, by rfl⟩
+    DictRoundTrip benv0 anywCtx .filterNone 3 "W".toList anyw_value :=
+  ⟨⟨_, by rfl, by rfl⟩, by rfl, ⟨_, by rfl, by rfl⟩⟩
 
-/-- C04-wrapper-local-names: `P(c=B(items=[1]))` → `{"c": {"items": {"item": [1]}}}` → ParserError -/
-theorem dict_rt_full_false_wrapper :
+/-- formerly C04-wrapper-local-names (repaired: `local_names_match` accepts wrapper names):
+`P(c=B(items=[1]))` → `{"c": {"items": {"item": [1]}}}` binds through `bind_best_dataclass`
+(B has the subclass BExt, whose required field makes its own attempt fail) and comes back; an
+instance whose keys single out its class (`BExt(items=[1], extra="x")`) is inside the fragment of `dict_rt` -/
+theorem wrapper_best_roundtrip :
     encode wrapCtx .dict {} 3 wrap_value = .ok (.obj [("c".toList,
       .obj [("items".toList, .obj [("item".toList, .arr [.num 1])])])]) ∧
-    decode benv0 wrapCtx {} 3 (.cls "P".toList) (.obj [("c".toList,
-      .obj [("items".toList, .obj [("item".toList, .arr [.num 1])])])])
-      = ND.fail (.parser "Failed to bind object to any of the classes") := ⟨by rfl, by rfl⟩
+    DictRoundTrip benv0 wrapCtx .dict 3 "P".toList wrap_value ∧
+    valOKj benv0 wrapCtx .dict 3 "P".toList wrap_good = true ∧
+    valOKj benv0 wrapCtx .filterNone 3 "P".toList wrap_good = true :=
+  ⟨by rfl, ⟨_, by rfl, by rfl⟩, by rfl, by rfl⟩
 
 /-- formerly C04-compound-str-as-int (repaired in /repo a186187): with an int choice before the
 str choice, `H(e=["1"])` → `{"e": ["1"]}` now decodes to itself -/
